@@ -20,7 +20,10 @@ from .kernel import norm, op_place
 MAX_PATHS = 60000
 
 
-ITER_ADAPTORS = ('iter_filter', 'iter_map', 'iter_filter_map', 'iter_take_while', 'iter_skip_while')
+INT_IMPL_PREFIXES = tuple('<%s as ' % t_ for t_ in ('u8', 'u16', 'u32', 'u64', 'u128', 'usize', 'i8', 'i16', 'i32', 'i64', 'i128', 'isize', 'std::time::Instant', 'std::time::Duration'))
+COLL_CTORS = ('default', 'new', 'new_const', 'with_capacity')
+COLL_CTOR_PREFIXES = ('<smallvec::SmallVec as std::default::Default>::', 'smallvec::SmallVec::', 'std::vec::Vec::', '<std::vec::Vec as std::default::Default>::')
+ITER_ADAPTORS = ('iter_filter', 'iter_map', 'iter_filter_map', 'iter_take_while', 'iter_skip_while', 'iter_map_while', 'iter_flatten')
 
 
 class PathLimit(Exception):
@@ -241,6 +244,17 @@ class SymEx:
             if fr is None:
                 fr = st.env
             v = fr.get(key[2])
+            if v is not None and st.heap and isinstance(v, tuple) and v and v[0] in ('param', 'fld', 'payload'):
+                # a by-value object whose fields were assigned in place (`mut self` setters): the assignments travel with the value
+                ov = []
+                for hk, hv in st.heap.items():
+                    path, x = [], hk
+                    while isinstance(x, tuple) and x and x[0] == 'fld' and x != key:
+                        path.append(x[2]); x = x[1]
+                    if x == key and path:
+                        ov.append((tuple(reversed(path)), hv))
+                if ov:
+                    return ('overlay', v, tuple(sorted(ov, key=str)))
             return v if v is not None else ('unk', 'uninit:%s:_%d' % (key[1], key[2]))
         if k in ('fld', 'payload', 'index'):
             base = key[1]
@@ -269,6 +283,13 @@ class SymEx:
                 return v[3][name_or_idx] if name_or_idx < len(v[3]) else ('unk', 'fieldidx')
             k2 = ('payload', v, variant, name_or_idx)
             return st.heap.get(k2, k2)
+        if v[0] == 'overlay':
+            exact = [val for path, val in v[2] if path == (name_or_idx,)]
+            if exact:
+                return exact[0]
+            deeper = tuple((path[1:], val) for path, val in v[2] if len(path) > 1 and path[0] == name_or_idx)
+            inner = self._proj_value(st, v[1], name_or_idx, None, b) if v[1][0] in ('aggr', 'overlay') else ('fld', v[1], name_or_idx)
+            return ('overlay', inner, deeper) if deeper else inner
         if v[0] == 'aggr':
             idx = name_or_idx if isinstance(name_or_idx, int) else self._field_index(v[1], v[2], name_or_idx)
             if idx is not None and idx < len(v[3]):
@@ -430,6 +451,8 @@ class SymEx:
                 return ('aggr', norm(rv['adt']), rv['variant'], ops)
             if kind == 'closure':
                 return ('closure', norm(rv['closure']), ops)
+            if kind == 'array':
+                return ('coll', ops)
             return ('tuple', ops)
         if k == 'repeat':
             return ('repeat', self.operand(b, st, rv['op']))
@@ -717,6 +740,7 @@ class SymEx:
                 return None
             if m is not None:
                 return finish(m)
+            self._forget_colls(b, st, raw, args, ext, line)
             val = self.call_term(st, ext, tuple(args), [])
             st.events.append(('call', ext, tuple(args), line, b.nid, self.place_key(b, st, dest), val))
             return finish(val)
@@ -733,8 +757,15 @@ class SymEx:
                 elif fb is not None and '::' in fn_ and not fn_.startswith('<'):
                     ctx_adts.add(fn_.rsplit('::', 1)[0])
             cand = [tg for tg in targets if (getattr(prog.bodies[tg], 'impl_self', None) or {}).get('adt') and norm(prog.bodies[tg].impl_self['adt']) in ctx_adts]
+            if len(cand) == 1 and cand[0] in st.frames and len(targets) == 2:
+                cand = []       # the blanket / wrapper impl being executed delegates to the impl of its inner type, not to itself
             if len(cand) == 1:
                 targets = cand
+            else:
+                # a wrapper impl (`impl<T: Tr> Tr for Option<T>`) that is being executed delegates to the impl of the wrapped type
+                rest = [tg for tg in targets if tg not in st.frames]
+                if len(rest) == 1 and len(targets) == 2:
+                    targets = rest
         if len(targets) == 1 and self.should_inline(targets[0], depth):
             tg = prog.bodies[targets[0]]
 
@@ -750,9 +781,18 @@ class SymEx:
             return None
         # opaque in-crate call (trait fan-out or too large)
         cname = targets[0] if len(targets) == 1 else (callee_raw or name)
+        self._forget_colls(b, st, raw, args, cname, line)
         val = self.call_term(st, cname, tuple(args), targets)
         st.events.append(('call', cname, tuple(args), line, b.nid, self.place_key(b, st, dest), val))
         return finish(val)
+
+    def _forget_colls(self, b, st, raw, args, name, line):
+        """A tracked collection handed by reference to code that is not stepped into may be changed there."""
+        for a, v in zip(raw, args):
+            if a is not v and isinstance(v, tuple) and v and v[0] == 'coll' and isinstance(a, tuple) and a and self._rooted_in_local(a):
+                if str(name).split('::')[-1] in ('iter', 'len', 'is_empty', 'as_slice', 'as_ref', 'deref', 'first', 'last', 'get', 'contains', 'clone', 'fmt'):
+                    continue
+                self.store(st, a, ('call', 'escaped', (v, ('c', str(name)), ('c', line))), b, line, False)
 
     # the intrusive list, its cache-level wrappers and the sketch are primitives of the cache-level analysis
     OPAQUE_MODULES = ('common::deque::', 'common::frequency_sketch::', 'unsync::deques::', 'common::concurrent::deques::',
@@ -808,10 +848,14 @@ class SymEx:
             if r is not None:
                 return r
         if nid.startswith(self.OPAQUE_MODULES):
-            return False
+            # ... except constructors of lazy iterators over the primitive (they only package a start value and a step closure) and those
+            # closures: the iteration is then modelled item by item where it is consumed
+            rb = self.prog.bodies.get(tg.root) if (tg.kind == 'closure' and tg.root) else tg
+            if not (rb is not None and str(rb.locals[0]['ty'].get('adt') or '').startswith('std::iter::') and len(rb.blocks) <= 12 and not rb.loops()):
+                return False
         if len(tg.blocks) > self.inline_max_blocks:
             return False
-        if tg.loops():
+        if tg.loops() or tg.iterates():
             return False
         return True
 
@@ -892,12 +936,34 @@ class SymEx:
                 return ('c', False)
             if dty.startswith('std::option::Option<'):
                 return NONE
+        # growable collections built in the analysed code: the content is the sequence of pushed terms (a collection that reaches code we
+        # do not step into by &mut is forgotten, see call())
+        if last in COLL_CTORS and ext.startswith(COLL_CTOR_PREFIXES) and not (last == 'default' and 'Default>::default' not in ext):
+            return ('coll', ())
+        if ext in ('smallvec::SmallVec::push', 'std::vec::Vec::push') and len(args) == 2 and raw:
+            cur = self.load(st, raw[0], b)
+            st.events.append(('call', ext, tuple(args), line, b.nid, None))
+            if isinstance(cur, tuple) and cur and cur[0] == 'coll':
+                self.store(st, raw[0], ('coll', cur[1] + (args[1],)), b, line, False)
+            return ('c', '()')
+        if last == 'next' and ext.endswith(' as std::iter::Iterator>::next') and args and raw and isinstance(args[0], tuple) and args[0] and args[0][0] == 'coll':
+            items = args[0][1]
+            st.events.append(('call', ext, tuple(args), line, b.nid, None))
+            if not items:
+                return NONE
+            self.store(st, raw[0], ('coll', items[1:]), b, line, False)
+            # a loop over a collection of known content runs once per item: this trip does not count against the revisit bound
+            for vk in [vk for vk in st.visits if vk[0] == b.nid and vk[2] == depth]:
+                st.visits[vk] = max(0, st.visits[vk] - 1)
+            return some(items[0])
+        if last in ('len', 'is_empty') and ext.startswith(('smallvec::SmallVec::', 'std::vec::Vec::')) and args and isinstance(args[0], tuple) and args[0] and args[0][0] == 'coll':
+            return ('c', len(args[0][1])) if last == 'len' else ('c', not args[0][1])
         if ext in ('std::mem::drop', 'core::mem::drop') and args:
             st.events.append(('call', ext, tuple(args), line, b.nid, None))
             return ('c', '()')
-        if ext in ('std::cmp::Ord::cmp',) and len(args) == 2:
+        if (ext in ('std::cmp::Ord::cmp',) or ext.endswith(' as std::cmp::Ord>::cmp')) and len(args) == 2:
             return ('ordering', self.load(st, args[0], b), self.load(st, args[1], b))
-        if ext in ('std::cmp::PartialOrd::partial_cmp',) and len(args) == 2:
+        if (ext in ('std::cmp::PartialOrd::partial_cmp',) or (ext.endswith(' as std::cmp::PartialOrd>::partial_cmp') and ext.startswith(INT_IMPL_PREFIXES))) and len(args) == 2:
             return some(('ordering', self.load(st, args[0], b), self.load(st, args[1], b)))
         if ext.startswith('std::cmp::Ordering::is_') and args and isinstance(args[0], tuple) and args[0] and args[0][0] == 'ordering':
             a_, b_ = args[0][1], args[0][2]
@@ -1185,8 +1251,10 @@ class SymEx:
             # (items the predicate rejects are skipped by the adaptor itself: only the accepted item and exhaustion are outcomes)
             if last in ('filter', 'map', 'filter_map') and len(args) == 2 and (raw or args)[1][0] in ('closure', 'fn'):
                 return ('iter_' + last, args[0], (raw or args)[1])
-            if last in ('take_while', 'skip_while') and len(args) == 2 and (raw or args)[1][0] in ('closure', 'fn'):
+            if last in ('take_while', 'skip_while', 'map_while') and len(args) == 2 and (raw or args)[1][0] in ('closure', 'fn'):
                 return ('iter_' + last, args[0], (raw or args)[1])
+            if last == 'flatten' and len(args) == 1 and isinstance(args[0], tuple) and args[0] and args[0][0] in ITER_ADAPTORS:
+                return ('iter_flatten', args[0], None)
             if last in ('rev', 'peekable', 'fuse', 'by_ref', 'copied', 'cloned') and isinstance(args[0], tuple) and args[0] and args[0][0] in ITER_ADAPTORS + ('chan_iter', 'opt_iter', 'iter_from_fn'):
                 return args[0]
             if last in ('find', 'find_map') and len(args) == 2 and (raw or args)[1][0] in ('closure', 'fn'):
@@ -1204,6 +1272,27 @@ class SymEx:
                         self.apply_fn(_clo, [_init, opt[3][0]], s2, depth, out, lambda s3, rv: resume(s3, rv))
                 self.iter_next(b, st, args[0], depth, out, line, kfold)
                 return 'handled'
+            if last == 'try_fold' and len(args) == 3 and (raw or args)[2][0] in ('closure', 'fn') and not t['dest'].get('p'):
+                # like fold, in the Try type R of the destination: exhaustion -> R::from_output(init); one abstract iteration -> f(init, item),
+                # which is either the early exit or the accumulator the (then exhausted) sequence ends with
+                dty = b.local_ty(t['dest']['l'])['s']
+                wrap = None
+                if dty.startswith('std::ops::ControlFlow<'):
+                    wrap = lambda x: ('aggr', CONTROLFLOW, 'Continue', (x,))
+                elif dty.startswith('std::option::Option<'):
+                    wrap = some
+                elif dty.startswith('std::result::Result<'):
+                    wrap = lambda x: ('aggr', RESULT, 'Ok', (x,))
+                if wrap is not None:
+                    init, clo = args[1], (raw or args)[2]
+
+                    def ktfold(s2, opt, _init=init, _clo=clo, _wrap=wrap):
+                        if opt == NONE:
+                            resume(s2, _wrap(_init))
+                        else:
+                            self.apply_fn(_clo, [_init, opt[3][0]], s2, depth, out, lambda s3, rv: resume(s3, rv))
+                    self.iter_next(b, st, args[0], depth, out, line, ktfold)
+                    return 'handled'
             if last == 'next' and isinstance(args[0], tuple) and args[0][0] in ITER_ADAPTORS:
                 self.iter_next(b, st, args[0], depth, out, line, resume)
                 return 'handled'
@@ -1254,6 +1343,21 @@ class SymEx:
                         if self.assume_bool(s2, rv, _want):
                             k(s2, some(payload))
                     self.apply_fn(clo, [payload], s, depth, out, kf)
+                elif kind == 'iter_map_while':
+                    def kmw(s2, rv):
+                        for (s3, is_some, pl) in self.option_cases(s2, rv):
+                            k(s3, some(pl) if is_some else NONE)
+                    self.apply_fn(clo, [payload], s, depth, out, kmw)
+                elif kind == 'iter_flatten':
+                    # items that are Options: a None item is skipped by the adaptor itself
+                    if isinstance(payload, tuple) and payload and payload[0] == 'aggr' and payload[1] == OPTION:
+                        if payload[2] == 'Some':
+                            k(s, some(payload[3][0]))
+                    else:
+                        nx_ = self.call_term(s, 'std::iter::Iterator::next', (it,), [])
+                        s.events.append(('call', 'std::iter::Iterator::next', (it,), line, b.nid, None, nx_))
+                        for (s2, is_some, pl) in self.option_cases(s, nx_):
+                            k(s2, some(pl) if is_some else NONE)
                 elif kind == 'iter_take_while':
                     def ktw(s2, rv):
                         s_f = s2.fork()
